@@ -233,6 +233,7 @@ def gen_cases(prop, seed, n_types, per):
     rnd = random.Random(seed * 1000003 + hash(prop) % 997 if False else seed * 1000003 + sum(map(ord, prop)))
     pool = Pool(); g = Gen(rnd, pool, KINDS_BY_PROP.get(prop))
     if prop in ("C02", "C03", "C08") and not KINDS_BY_PROP.get(prop): g.kinds = g.kinds + ["depreq"]
+    if prop == "C08": g.kinds = g.kinds + ["postinit", "postinit"]
     types = []
     for _ in range(n_types):
         t = g.ty(3)
@@ -287,7 +288,7 @@ def evaluate(prop, t, tp, d, o, ns, mo):
     im = run_impl(tp, d, o, keep=keep)
     # outside the model's datum type: instances of subclasses of the JSON classes; dicts with non-string keys under a
     # uniqueness test (`to_hashable` sorts the items: whether that works depends on the keys' classes)
-    modelled = "depreq" not in t.features() and not has_other(d, SUBCLASSED) and not ('"dn"' in json.dumps(dproto(d)) and ({"clist", "set", "frozenset"} & t.features()))
+    modelled = not ({"depreq", "postinit"} & t.features()) and not has_other(d, SUBCLASSED) and not ('"dn"' in json.dumps(dproto(d)) and ({"clist", "set", "frozenset"} & t.features()))
     m = canon_model(mo["model"]) if "model" in mo else None
     oos = isinstance(m, dict) and str(m.get("crash", "")).startswith("ModelScope")
     k_ok = None if (m is None or oos or not modelled) else same(im, m)
@@ -463,6 +464,71 @@ def nontrivial(prop, t, d, o, im, info):
     return not leafish
 
 
+def canon_py(x):
+    """structure with runtime classes (a tuple is not a list; set order ignored; NaN-safe)"""
+    if isinstance(x, float): return ("f", repr(x))
+    if isinstance(x, (list, tuple)): return (type(x).__name__, [canon_py(y) for y in x])
+    if isinstance(x, (set, frozenset)): return (type(x).__name__, sorted((canon_py(y) for y in x), key=repr))
+    if isinstance(x, dict): return ("dict", [(canon_py(k), canon_py(v)) for k, v in x.items()])
+    return (type(x).__name__, repr(x))
+
+
+def ser_part(seed, budget):
+    """serialization side of C08: results do not depend on no_copy, check_type (well-typed values), function vs precomputed
+    method, nor - up to what serialization_default completes - on PassThroughOptions"""
+    import json as _json
+    from apischema import deserialize, serialize, serialization_method, serialization_default, PassThroughOptions
+    from engine_ser import ambiguous_union, has_unique
+    rnd = random.Random(seed * 77 + 5); pool = Pool(); g = Gen(rnd, pool, None)
+    g.kinds = g.kinds + ["sequence", "tuple", "tuple"]
+    types = [g.ty(3) for _ in range(120 * budget)]
+    mod = build_module(pool.source(), f"C08ser_{seed}"); ns = dict(vars(mod))
+    failures, n, distinct = [], 0, set()
+    for t in types:
+        if ambiguous_union(t) or has_unique(t): continue
+        tp = eval(t.py, ns)
+        for _ in range(4):
+            d = g.valid(t)
+            try: v = deserialize(tp, fresh(d), no_copy=False)
+            except Exception: continue
+            so = {"exclude_none": rnd.random() < 0.3, "exclude_defaults": rnd.random() < 0.3, "additional_properties": rnd.random() < 0.3}
+            def out(fn):
+                try: return ("ok", canon_py(fn()))
+                except Exception as e: return ("exc", type(e).__name__)
+            base = out(lambda: serialize(tp, v, no_copy=False, check_type=False, **so))
+            if base[0] != "ok": continue
+            n += 1
+            if t.kind not in Gen.LEAVES: distinct.add(case_hash(t.lean, dproto(d), so))
+            variants = {
+                "no_copy=True": lambda: serialize(tp, v, no_copy=True, check_type=False, **so),
+                "check_type=True": lambda: serialize(tp, v, no_copy=False, check_type=True, **so),
+                "no_copy=True,check_type=True": lambda: serialize(tp, v, no_copy=True, check_type=True, **so),
+                "precomputed-method": lambda: serialization_method(tp, no_copy=False, check_type=False, **so)(v),
+                "precomputed-method,no_copy=True": lambda: serialization_method(tp, no_copy=True, **so)(v),
+            }
+            for name, fn in variants.items():
+                o = out(fn)
+                if o != base:
+                    failures.append(pack(t, d, {"ser_options": so}, kind="P", k_ok=True, why=["serialization-result-depends-on-" + name],
+                                         info={"baseline": repr(base)[:300], name: repr(o)[:300]}))
+                    break
+            # pass-through: what is left untouched is completed by serialization_default
+            flags = {k: rnd.random() < 0.5 for k in ("any", "collections", "dataclasses", "enums", "tuple")}
+            if flags["collections"]: pass
+            try:
+                pt = serialize(tp, v, no_copy=True, pass_through=PassThroughOptions(**flags), **so)
+                plain = serialize(tp, v, no_copy=True, **so)
+                a = _json.dumps(pt, default=serialization_default(**so), sort_keys=True)
+                b = _json.dumps(plain, sort_keys=True)
+                if a != b:
+                    failures.append(pack(t, d, {"ser_options": so, "pass_through": flags}, kind="P", k_ok=True,
+                                         why=["pass-through-result-not-completed-to-the-plain-result"], info={"pass_through": a[:300], "plain": b[:300]}))
+            except (TypeError, ValueError) as e:
+                # json.dumps cannot order / encode what pass-through legitimately leaves (sets, non-string keys): not comparable
+                pass
+    return failures, n, distinct
+
+
 def run(prop, seed, budget, ctx):
     n_types, per = {"C01": (300, 10), "C02": (300, 10), "C03": (300, 10), "C08": (150, 8), "C13": (250, 10), "C14": (250, 10)}[prop]
     cases = gen_cases(prop, seed, n_types * budget, per)
@@ -489,6 +555,14 @@ def run(prop, seed, budget, ctx):
                                  info={k: v for k, v in info.items() if k != "in_scope"}))
         elif k_ok is False:
             failures.append(pack(t, d, o, kind="K", why="model and implementation disagree", impl=im, model=m, k_ok=False))
+    if prop == "C08":
+        sf, sn, sd = ser_part(seed, budget)
+        failures += sf; hist["serialization-cases"] = sn
+        for f in sf: hist["P:" + f["why"][0]] += 1
+        distinct |= sd
+        return {"evaluations": len(cases) + sn, "distinct_nontrivial": len(distinct), "rule": RULES[prop] + "; serialization side: values x no_copy x check_type x "
+                "{function, precomputed method} x random PassThroughOptions completed by serialization_default", "samples": samples,
+                "histograms": dict(hist), "in_scope": in_scope, "correspondence": {"compared_with_model": k_checked, "disagreements": k_bad}, "failures": failures}
     return {"evaluations": len(cases), "distinct_nontrivial": len(distinct), "rule": RULES[prop], "samples": samples,
             "histograms": dict(hist), "in_scope": in_scope,
             "correspondence": {"compared_with_model": k_checked, "disagreements": k_bad},
@@ -565,6 +639,6 @@ KF = {
     "KF30": lambda c, why, im, k_ok: why == ["result-depends-on-no_copy"] and k_ok is True and "mapping" in c["features"]
                                      and _same_locs(c.get("info", {}).get("differs", {})),
     # a non-string key reaches a key method whose bad_type / pattern / literal lookup raises
-    "KF11": lambda c, why, im, k_ok: why == ["no_copy=False-shares-a-container-with-the-input"] and k_ok is True
+    "KF11": lambda c, why, im, k_ok: why == ["no_copy=False-shares-a-container-with-the-input"] and k_ok is not False
                                      and c.get("info", {}).get("shared_at_any") is True,
 }
